@@ -521,6 +521,106 @@ func deepSpecOf() seqmc.Spec {
 	}}
 }
 
+// ---- values of non-comparable dynamic types (slices, maps, structs holding
+// them): the tree stores interface{} values and must never compare them
+
+type vsys struct {
+	t *ctree.Tree
+	m map[string]string // path -> printed value
+}
+
+var vPaths = [][]string{{"a"}, {"a", "b"}, {"c"}}
+
+func vValues() []interface{} {
+	type tv struct {
+		Val []interface{}
+	}
+	return []interface{}{[]string{"x"}, []string{"y"}, []byte{1}, map[string]int{"k": 1}, tv{[]interface{}{1}}, "s"}
+}
+
+func vOps() []string {
+	var names []string
+	for _, p := range vPaths {
+		for _, v := range vValues() {
+			names = append(names, fmt.Sprintf("Add(%v, %T %v)", p, v, v))
+		}
+	}
+	for _, p := range vPaths {
+		for _, v := range vValues()[:3] {
+			names = append(names, fmt.Sprintf("GetLeaf(%v).Update(%T %v)", p, v, v))
+		}
+	}
+	return append(names, "Delete([a])", "Delete([*])")
+}
+
+func (s *vsys) Apply(i int) (out []seqmc.Violation) {
+	defer func() {
+		if r := recover(); r != nil {
+			out = vio("panic-on-structured-value", "operation %s panicked: %v", vOps()[i], r)
+		}
+	}()
+	vals := vValues()
+	nAdd := len(vPaths) * len(vals)
+	switch {
+	case i < nAdd:
+		p, v := vPaths[i/len(vals)], vals[i%len(vals)]
+		ok := true
+		for k := range s.m {
+			l := unkey(k)
+			if len(l) != len(p) && (isPrefix(l, p) || isPrefix(p, l)) {
+				ok = false
+			}
+		}
+		err := s.t.Add(p, v)
+		if (err == nil) != ok {
+			return vio("add-result", "Add(%v, %T): error=%v, model accepts=%v", p, v, err, ok)
+		}
+		if ok {
+			s.m[key(p)] = fmt.Sprint(v)
+		}
+	case i < nAdd+len(vPaths)*3:
+		j := i - nAdd
+		p, v := vPaths[j/3], vals[j%3]
+		if _, exists := s.m[key(p)]; exists {
+			l := s.t.GetLeaf(p)
+			if l == nil {
+				return vio("getleaf", "GetLeaf(%v) returned nil for a stored leaf", p)
+			}
+			l.Update(v)
+			s.m[key(p)] = fmt.Sprint(v)
+		}
+	default:
+		q := []string{"a"}
+		if i == nAdd+len(vPaths)*3+1 {
+			q = []string{"*"}
+		}
+		for _, d := range s.t.Delete(q) {
+			delete(s.m, key(d))
+		}
+	}
+	got := map[string]string{}
+	s.t.Walk(func(p []string, _ *ctree.Leaf, v interface{}) error { got[key(p)] = fmt.Sprint(v); return nil })
+	if fmt.Sprint(got) != fmt.Sprint(s.m) {
+		return vio("walk-vs-model", "after %s: Walk reports %v, model %v", vOps()[i], got, s.m)
+	}
+	for _, p := range vPaths {
+		if v, ok := s.m[key(p)]; ok {
+			if gv := s.t.GetLeafValue(p); fmt.Sprint(gv) != v {
+				return vio("get", "GetLeafValue(%v) = %v, model %s", p, gv, v)
+			}
+		}
+	}
+	return nil
+}
+
+func (s *vsys) Key() string { return fmt.Sprint(s.m) }
+
+func structuredSpec() seqmc.Spec {
+	return seqmc.Spec{Name: "values of non-comparable types (slices, maps, structs holding slices) (closure)", Ops: vOps(), Depth: 12, New: func() seqmc.Sys {
+		return &vsys{t: &ctree.Tree{}, m: map[string]string{}}
+	}}
+}
+
 type harness struct{}
 
 func (harness) Property() string { return "C09" }
@@ -539,6 +639,7 @@ func (harness) Specs(tier string) []seqmc.Spec {
 			mk("{a,b} paths<=3 patterns<=4 (closure)", ab, 3, 4, 16),
 			mk("{a,b,c} paths<=2 patterns<=3 (closure)", []string{"a", "b", "c"}, 2, 3, 16),
 			mk("{a,a-,a.} paths<=2 patterns<=2 (closure)", []string{"a", "a-", "a."}, 2, 2, 16),
+			structuredSpec(),
 		}
 	}
 	deep := mkExplicit(
@@ -551,7 +652,7 @@ func (harness) Specs(tier string) []seqmc.Spec {
 	// character that sorts below the path separator ('-' < '/'): ordering by
 	// elements differs from ordering by joined strings
 	pre := mk("{a,a-} paths<=2 patterns<=2 (closure)", []string{"a", "a-"}, 2, 2, 16)
-	return []seqmc.Spec{mk("{a,b} paths<=3 patterns<=3 (closure)", ab, 3, 3, 16), deepSpec, pre}
+	return []seqmc.Spec{mk("{a,b} paths<=3 patterns<=3 (closure)", ab, 3, 3, 16), deepSpec, pre, structuredSpec()}
 }
 
 func main() { seqmc.Main(harness{}) }
